@@ -393,6 +393,11 @@ func Run(file string, entry func()) {
 		if diverged != "" {
 			break
 		}
+		if (ev.Op == "load" || ev.Op == "store") && (a == nil || a.pos != ev.Pos || a.kind != ev.Op) {
+			// a plain access the native code does not stop at separately (one statement-level point stands for all
+			// accesses of the statement): nothing to release, the goroutine is already past it
+			continue
+		}
 		if a == nil {
 			diverged = fmt.Sprintf("step %d: goroutine %d has finished, model expects %s at %s", cursor, ev.T, ev.Op, ev.Pos)
 			break
